@@ -139,6 +139,9 @@ class _Generator(Generator):
             return str(type_.default).lower()
         elif isinstance(type_, oer.Enumerated):
             return self.format_default_enumerated(type_)
+        elif type_.default > 9223372036854775807:
+            # Too big for a signed integer constant.
+            return '{}u'.format(type_.default)
         else:
             return str(type_.default)
 
